@@ -7,3 +7,9 @@ import (
 )
 
 func TestC38(t *testing.T) { simkit.Main(t, SpecC38()) }
+func TestC10(t *testing.T) { simkit.Main(t, SpecC10()) }
+func TestC11(t *testing.T) { simkit.Main(t, SpecC11()) }
+func TestC12(t *testing.T) { simkit.Main(t, SpecC12()) }
+func TestC23(t *testing.T) { simkit.Main(t, SpecC23()) }
+func TestC14(t *testing.T) { simkit.Main(t, SpecC14()) }
+func TestC15(t *testing.T) { simkit.Main(t, SpecC15()) }
